@@ -36,7 +36,6 @@ m = {
     "checks": checks,
     "notes": "Every check: ./check <ID> --tier quick|thorough [--replay F]. Exit 0 held / 1 violation (VIOLATION line + replay file) / 2 tool error. known_findings.json lists genuine defects recorded or fixed. See DESIGN.md section 12.",
 }
-if na:
-    m["not_applicable"] = na
+m["not_applicable"] = na  # empty: every listed property is claimed
 json.dump(m, open('/verif/MANIFEST.json', 'w'), indent=1)
 print("claimed:", claimed)
